@@ -5,3 +5,15 @@ package table
 func VerifSetReaderFunc(fn func(path, fileName string) (Reader, error)) {
 	newMMapStoreReaderFunc = fn
 }
+
+// VerifAgeCache makes every cached reader's last use ms milliseconds older (the harness's way to let
+// time pass, identical in the engine and in native replays: the cache reads the clock only to stamp
+// the last use and to compare it with the TTL).
+func VerifAgeCache(c Cache, ms int64) {
+	sc := c.(*storeCache)
+	sc.mutex.Lock()
+	defer sc.mutex.Unlock()
+	for _, el := range sc.cache.items {
+		el.Value.(*cacheEntry).last -= ms
+	}
+}
